@@ -6,8 +6,8 @@ CONSTANTS
   MaxRules = 2
   ElemToks = {}
   GenLen = 0
-  DefaultHosts = {"none"}
-  Hosts = {"a.com", "b.com", "xa.com", "a.com:8080"}
+  DefaultHosts = {"none", "a.com"}
+  Hosts = {"a.com", "b.com", "xa.com", "a.com:8080", "a.com.evil.net"}
   PathToks = {"s", "a", "1", "pA", "pS"}
   PathLen = 3
   ArgNames = {"a", "1", "pct"}
